@@ -92,6 +92,8 @@ def run_case(case):
         ops = ['D', 'G', 'P'] + (['J'] if kind in ('uni', 'biv', 'gm') else [])
         if not fitted and kind in ('uni', 'gm'):
             ops = ['P']          # to_dict of an unfitted univariate / Gaussian model raises NotFittedError by contract
+        if kind == 'uni' and spec[1][0] == 'kde' and isinstance(spec[1][1], str) and ':' in spec[1][1]:
+            ops = [o for o in ops if o != 'J']       # a numpy scalar / a callable in the dict: json is not a library round trip
         cache = {(): orig}
 
         def build(hist):
